@@ -45,25 +45,42 @@ func makeDepGraph(program Program) depGraph {
 	for _, rule := range program.Rules {
 		s := rule.Head.Predicate
 		dep.initNode(s)
+		addAtom := func(p ast.Atom) {
+			if _, ok := builtin.Predicates[p.Predicate]; ok {
+				return
+			}
+			if _, ok := program.EdbPredicates[p.Predicate]; !ok {
+				if rule.Transform == nil || rule.Transform.IsLetTransform() {
+					dep.addEdge(s, p.Predicate, false)
+				} else {
+					// Recursion through a do-transform is not permitted.
+					// We treat this as if it was a negation.
+					dep.addEdge(s, p.Predicate, true)
+				}
+			}
+		}
+		addNegAtom := func(p ast.NegAtom) {
+			if _, ok := program.EdbPredicates[p.Atom.Predicate]; !ok {
+				dep.addEdge(s, p.Atom.Predicate, true)
+			}
+		}
 		for _, premise := range rule.Premises {
 			switch p := premise.(type) {
 			case ast.Atom:
-				if _, ok := builtin.Predicates[p.Predicate]; ok {
-					continue
-				}
-				if _, ok := program.EdbPredicates[p.Predicate]; !ok {
-					if rule.Transform == nil || rule.Transform.IsLetTransform() {
-						dep.addEdge(s, p.Predicate, false)
-					} else {
-						// Recursion through a do-transform is not permitted.
-						// We treat this as if it was a negation.
-						dep.addEdge(s, p.Predicate, true)
-					}
-				}
+				addAtom(p)
 			case ast.NegAtom:
-				if _, ok := program.EdbPredicates[p.Atom.Predicate]; !ok {
-					dep.addEdge(s, p.Atom.Predicate, true)
+				addNegAtom(p)
+			case ast.TemporalLiteral:
+				// A temporally annotated literal depends on its predicate
+				// like the plain literal does.
+				switch lit := p.Literal.(type) {
+				case ast.Atom:
+					addAtom(lit)
+				case ast.NegAtom:
+					addNegAtom(lit)
 				}
+			case ast.TemporalAtom:
+				addAtom(p.Atom)
 			}
 		}
 	}
